@@ -231,7 +231,7 @@ def run_unit(repo, name, workdir):
                 continue
             for kind in ('const', 'static', 'fn', 'struct', 'enum', 'type'):
                 anchor = '%s %s' % (kind, nm)
-                if re.search(r'^[ \t]*(?:pub(?:\([a-z]+\))?\s+)?(?:const\s+|async\s+)*%s\s+%s\b' % (kind, re.escape(nm)), srctext, re.M) and (rel, parent, anchor) not in auto:
+                if re.search(r'^[ \t]*(?:pub(?:\([a-z]+\))?\s+)?(?:const\s+|async\s+)*%s\s+%s\b' % (kind, re.escape(nm)), srctext, re.M) and not any(a[0] == rel and a[2] == anchor for a in auto):
                     auto.append((rel, parent, anchor))
                     added = True
                     break
